@@ -1543,3 +1543,110 @@ func (g *genCtx) chainLink(sc int, last Key, cont, wantMissing bool) int {
 	}
 	return second
 }
+
+// tmplHeal: what a constructor lacked appears later. A constructor C(D) -> R is
+// registered in a scope X (often exported, often two or more levels down)
+// while nobody X can see provides D; R is requested (mostly through an
+// optional field, from a scope that can see C); then D is registered in X or
+// in one of its ancestors (with or without Export) and R is requested again.
+// Whatever an earlier, given-up resolution left behind must not outlive the
+// registration that fills the gap (C04, C08, C03, C07).
+func (g *genCtx) tmplHeal() {
+	if g.ft.Catalog {
+		return
+	}
+	x := 0
+	for s := range g.m.S {
+		if g.m.Depth(s) > g.m.Depth(x) {
+			x = s
+		}
+	}
+	for g.m.Depth(x) < 2 && len(g.m.S) < 8 && g.r.P(0.8) {
+		g.addOp(Op{Kind: OpScope, Scope: x})
+		x = g.m.AddScope(x)
+	}
+	path := g.m.Path(x)
+	if g.r.P(0.25) {
+		x = path[g.r.Intn(len(path))]
+		path = g.m.Path(x)
+	}
+	names := append([]string{""}, g.ft.Names...)
+	var absent, free []Key
+	for t := 0; t < g.ft.NT; t++ {
+		for _, n := range names {
+			k := Key{T: t, Name: n}
+			if len(g.m.AllProv(x, k)) == 0 {
+				absent = append(absent, k)
+			}
+			if len(g.m.S[x].Prov[k]) == 0 && len(g.m.S[0].Prov[k]) == 0 {
+				free = append(free, k)
+			}
+		}
+	}
+	if len(absent) == 0 || len(free) < 2 {
+		return
+	}
+	d := absent[g.r.Intn(len(absent))]
+	var rk Key
+	found := false
+	for _, i := range g.r.Perm(len(free)) {
+		if free[i] != d {
+			rk, found = free[i], true
+			break
+		}
+	}
+	if !found {
+		return
+	}
+	single := func(k Key, opt bool) Param {
+		return Param{Kind: PObj, Fields: []Param{{Kind: PSingle, T: k.T, Name: k.Name, Opt: opt}}}
+	}
+	result := func(k Key) Result {
+		r := Result{Kind: RSingle, T: k.T, Name: k.Name}
+		if k.Name != "" {
+			r = Result{Kind: RObj, Fields: []Result{r}}
+		}
+		return r
+	}
+	provide := func(sc int, params []Param, k Key, export bool) bool {
+		tmp := Func{ID: -1, Cat: -1, Role: RoleCtor, Params: params, Results: []Result{result(k)}, Export: export && sc != 0}
+		if g.m.PredictProvide(sc, &tmp) != PredOK {
+			return false
+		}
+		f := g.newFunc(RoleCtor)
+		f.Params, f.Results, f.Export = tmp.Params, tmp.Results, tmp.Export
+		f.HasErr = g.r.P(0.3)
+		f.Callback = g.ft.Callbacks && g.r.P(0.3)
+		i := g.addOp(Op{Kind: OpProvide, Scope: sc, Fn: f.ID, Tag: "heal"})
+		g.m.AddCtor(sc, i, f)
+		return true
+	}
+	exported := g.r.P(0.5)
+	if !provide(x, []Param{single(d, false)}, rk, exported) {
+		return
+	}
+	exported = exported && x != 0
+	ask := func() {
+		var from []int
+		for y := range g.m.S {
+			if exported || g.m.IsAnc(x, y) {
+				from = append(from, y)
+			}
+		}
+		inv := g.newFunc(RoleInv)
+		inv.Params = []Param{single(rk, g.r.P(0.7))}
+		g.addOp(Op{Kind: OpInvoke, Scope: from[g.r.Intn(len(from))], Fn: inv.ID, Tag: "heal"})
+	}
+	ask()
+	if g.r.P(0.3) {
+		ask()
+	}
+	z := path[g.r.Intn(len(path))]
+	if !provide(z, nil, d, g.r.P(0.3)) {
+		return
+	}
+	ask()
+	if g.r.P(0.5) {
+		ask()
+	}
+}
